@@ -31,6 +31,11 @@ type pathExplorer struct {
 	// returned value or as a condition); the path continues after the call once per path of the
 	// helper, with the call's value bound to what that path returns
 	anywhere bool
+	// maxVisits: how many times a block may occur on one path (default 1: acyclic paths). With 2 a
+	// loop is followed once around; onRevisit tells the rule that the path re-enters a block it
+	// has been in (values computed there are about to be recomputed).
+	maxVisits int
+	onRevisit func(st any) any
 }
 
 // valEnv binds values to what they are known to be on the current path: the
@@ -146,7 +151,7 @@ func (e phiEnv) resolve(v ssa.Value) (ssa.Value, bool) {
 // run explores fn from its entry; onReturn is called once per path with the
 // state and the (resolved) returned values of the outermost function.
 func (e *pathExplorer) run(fn *ssa.Function, st any, onReturn func(st any, results []ssa.Value)) {
-	e.walk(fn.Blocks[0], 0, nil, st, phiEnv{}, valEnv{}, map[*ssa.BasicBlock]bool{}, 0, onReturn)
+	e.walk(fn.Blocks[0], 0, nil, st, phiEnv{}, valEnv{}, map[*ssa.BasicBlock]int{}, 0, onReturn)
 }
 
 func (e *pathExplorer) inlinable(call *ssa.Call, depth int) *ssa.Function {
@@ -172,7 +177,7 @@ func (e *pathExplorer) enter(call *ssa.Call, h *ssa.Function, st any, vals valEn
 			in = in.bind(prm, vals.get(call.Call.Args[i]))
 		}
 	}
-	e.walk(h.Blocks[0], 0, nil, st, phiEnv{}, in, map[*ssa.BasicBlock]bool{}, depth+1, func(st2 any, res []ssa.Value) {
+	e.walk(h.Blocks[0], 0, nil, st, phiEnv{}, in, map[*ssa.BasicBlock]int{}, depth+1, func(st2 any, res []ssa.Value) {
 		out := vals
 		if len(res) == 1 {
 			out = out.bind(call, res[0])
@@ -187,17 +192,24 @@ func (e *pathExplorer) enter(call *ssa.Call, h *ssa.Function, st any, vals valEn
 	})
 }
 
-func (e *pathExplorer) walk(b *ssa.BasicBlock, from int, pred *ssa.BasicBlock, st any, env phiEnv, vals valEnv, on map[*ssa.BasicBlock]bool, depth int, onReturn func(any, []ssa.Value)) {
+func (e *pathExplorer) walk(b *ssa.BasicBlock, from int, pred *ssa.BasicBlock, st any, env phiEnv, vals valEnv, on map[*ssa.BasicBlock]int, depth int, onReturn func(any, []ssa.Value)) {
 	if e.budget <= 0 {
 		return
 	}
 	if from == 0 {
-		if on[b] {
+		limit := e.maxVisits
+		if limit < 1 {
+			limit = 1
+		}
+		if on[b] >= limit {
 			return
 		}
+		if on[b] > 0 && e.onRevisit != nil {
+			st = e.onRevisit(st)
+		}
 		e.budget--
-		on[b] = true
-		defer delete(on, b)
+		on[b]++
+		defer func() { on[b]-- }()
 		env = env.with(b, pred)
 	}
 	for i := from; i < len(b.Instrs); i++ {
@@ -242,7 +254,7 @@ func (e *pathExplorer) walk(b *ssa.BasicBlock, from int, pred *ssa.BasicBlock, s
 					if e.onInline != nil {
 						st = e.onInline(st, call, h)
 					}
-					e.walk(h.Blocks[0], 0, nil, st, phiEnv{}, vals, map[*ssa.BasicBlock]bool{}, depth+1, onReturn)
+					e.walk(h.Blocks[0], 0, nil, st, phiEnv{}, vals, map[*ssa.BasicBlock]int{}, depth+1, onReturn)
 					return
 				}
 			}
@@ -291,7 +303,7 @@ func (e *pathExplorer) walk(b *ssa.BasicBlock, from int, pred *ssa.BasicBlock, s
 				if e.onInline != nil {
 					stIn = e.onInline(st, call, h)
 				}
-				e.walk(h.Blocks[0], 0, nil, stIn, phiEnv{}, vals, map[*ssa.BasicBlock]bool{}, depth+1, func(st2 any, res []ssa.Value) {
+				e.walk(h.Blocks[0], 0, nil, stIn, phiEnv{}, vals, map[*ssa.BasicBlock]int{}, depth+1, func(st2 any, res []ssa.Value) {
 					if len(res) == 1 {
 						if k, isC := res[0].(*ssa.Const); isC {
 							if v, isB := boolConst(k); isB {
